@@ -31,7 +31,8 @@ REQUIRED = {"archives": 100, "reads_by_revid": 500, "reads_by_title": 300, "read
             "pages_without_revid": 50}
 LEVEL_TEXT = ("Exploration: 3e3 (quick) / 2e5 (thorough) generated write histories through the real FsOutput, zip and "
               "NuWiki reader; a dict model of what was written is the oracle for every read (revision id, title, "
-              "spelling variants, redirects, image paths).")
+              "spelling variants, redirects, image paths); titles include compatibility characters next to their "
+              "look-alikes and one image name stored in several formats.")
 LEVEL_NOTE = "Trusts the model (a dict) and the spelling generator shared with C12."
 TECHNIQUE = "write/read runtime monitor against a dict model over generated write histories (real FsOutput -> zip -> NuWiki)"
 
